@@ -253,10 +253,9 @@ func c08Rel(c *mc.Ctx, cs c08Case) {
 	}
 	// thread counts: bit-identical
 	for _, cpus := range []int{2, 3} {
-		// the command line sets GOMAXPROCS to --threads: code that sizes its work by it is reached
-		old := runtime.GOMAXPROCS(cpus)
+		// (GOMAXPROCS following the thread count, as --threads does, is the business of c08Threads:
+		// switching it is a stop-the-world operation, too dear for every relational case)
 		m, e, p := dist(cs.Seqs, nil, cpus)
-		runtime.GOMAXPROCS(old)
 		if p {
 			return
 		}
@@ -353,16 +352,20 @@ func c08Rel(c *mc.Ctx, cs c08Case) {
 	}
 }
 
+func c08FracWeights(L int) []float64 {
+	frac := make([]float64, L)
+	for i := range frac {
+		frac[i] = []float64{0.1, 0.7, 1.3, 0.3, 2.1}[i%5]
+	}
+	return frac
+}
+
 // c08Threads: the matrix for cpus = GOMAXPROCS = 1 and for 2, 3, 4 (GOMAXPROCS set like --threads does)
 // must be the same bits, with and without fractional weights.
 func c08Threads(c *mc.Ctx, cs c08Case) {
 	c.Eval()
 	L := len(cs.Seqs[0])
-	frac := make([]float64, L)
-	for i := range frac {
-		frac[i] = []float64{0.1, 0.7, 1.3, 0.3, 2.1}[i%5]
-	}
-	for wi, w := range [][]float64{nil, frac} {
+	for wi, w := range [][]float64{nil, c08FracWeights(L)} {
 		var base [][]float64
 		for _, cpus := range []int{1, 2, 3, 4} {
 			var m [][]float64
@@ -861,7 +864,7 @@ func c08Tasks(tier string) []mc.Task {
 								if sh.n*sh.L <= 6 {
 									// one model value for all calls of the case; range mode
 									c08Rel(c, c08Case{Kind: "rel", Seqs: seqs, Model: model, RmGaps: rm, GapMut: gm, Shared: true})
-									if sh.n*sh.L <= 4 || sh.n == 3 {
+									if sh.n*sh.L <= 4 || (sh.n == 3 && gm == 0) {
 										c08Rel(c, c08Case{Kind: "rel", Seqs: seqs, Model: model, RmGaps: rm, GapMut: gm, RangeAll: true})
 									}
 								}
@@ -909,6 +912,9 @@ func c08Tasks(tier string) []mc.Task {
 	// sums of thirds (three-fold codes B, V) and halves: a sum split over workers must not change a bit
 	for _, model := range []string{"f81", "f84", "tn93", "jc", "pdist"} {
 		model := model
+		if (model == "f84" || model == "jc") && !thorough {
+			continue
+		}
 		const ta = "ACBV"
 		L := 4
 		if thorough {
@@ -917,10 +923,52 @@ func c08Tasks(tier string) []mc.Task {
 		for i := 0; i < len(ta); i++ {
 			pf := ta[i : i+1]
 			ts = append(ts, mc.Task{Name: fmt.Sprintf("relthreads#%s/2x%d/%s", model, L, pf), Run: func(c *mc.Ctx) {
+				// GOMAXPROCS is switched once per thread count (a stop-the-world operation), not per alignment:
+				// the bits for 1 thread are kept and compared with those for 2, 3, 4 threads
+				var cases []c08Case
 				forEachStringLen(ta, 2*L, []byte(pf), func(s []byte) bool {
-					c08Threads(c, c08Case{Kind: "threads", Seqs: []string{string(s[:L]), string(s[L:])}, Model: model})
-					return !c.Expired()
+					cases = append(cases, c08Case{Kind: "threads", Seqs: []string{string(s[:L]), string(s[L:])}, Model: model})
+					return true
 				})
+				base := make([][2]string, len(cases))
+				bad := make([]bool, len(cases))
+				for _, cpus := range []int{1, 2, 3, 4} {
+					old := runtime.GOMAXPROCS(cpus)
+					for i, cs := range cases {
+						if bad[i] {
+							continue
+						}
+						for wi, w := range [][]float64{nil, c08FracWeights(L)} {
+							var m [][]float64
+							var e error
+							if pn, _ := mc.Guard(func() { m, e = c08Dist(cs.Seqs, w, cs.Model, false, 0, cpus) }); pn || e != nil {
+								bad[i] = true
+								break
+							}
+							if cpus == 1 {
+								base[i][wi] = c08Bits(m)
+							} else if c08Bits(m) != base[i][wi] {
+								bad[i] = true
+							}
+						}
+					}
+					runtime.GOMAXPROCS(old)
+					if c.Expired() {
+						return
+					}
+				}
+				// every case that did not simply agree is judged (and reported) on its own, replayably
+				for i, cs := range cases {
+					if bad[i] {
+						c08Threads(c, cs)
+					} else {
+						c.Eval()
+						c.Outcome("threads:" + cs.Model + ":same-bits")
+						if base[i][0] != "" {
+							c.Nontrivial(fmt.Sprintf("threads|%v|%s", cs.Seqs, cs.Model))
+						}
+					}
+				}
 			}})
 		}
 	}
@@ -933,7 +981,7 @@ func init() {
 		Level: "model_checking",
 		Rule: "schedule part: stateless DFS over all interleavings of the real dna.DistMatrix goroutines (main, producer, cpus workers; scheduling points at every go/channel/mutex/WaitGroup operation) with iterative preemption bounds 0,1,2 (quick) / 0..3 (thorough), for 3 sequences x cpus 1..3 x {k2p (with a +Inf pair), jc}, 4 sequences with overlapping ranges, 15 sequences (105 pairs > channel capacity); " +
 			"function-entry part: 3 sequences, cpus 2 (3 thorough), 5 models, every function entry of goalign (functions of >= 4 statements) an additional scheduling point, preemption bound 1; "+
-			"fault part: the same exploration with a DistModel that fails at each Distance call / each Sequence call in turn, and with one that fails at every Distance call from the k-th on (k=0,1; cpus 2,3; preemption bound 2/3); relational part: all alignments of shape 2x1,2x2,3x1,2x3,3x2 (+2x4,3x3 thorough; 3x3 over {A,C,T,-} for pdist and rawdist) over {A,C,G,T,-} x 7 models x rm-gaps x gap-count modes under every column permutation, replication (concat, weights) k=2,3, unit weights, reverse complement, every row permutation, cpus 1,2,3 (GOMAXPROCS following, as --threads does); the shapes of <= 6 cells also with ONE model value serving all calls of a case (as build distboot does) and, for 2x1, 2x2, 3x1, 3x2, in range mode with both ranges = all rows; thread part: all 2x4 (thorough 2x5) alignments over {A,C,B,V} x {f81,f84,tn93,jc,pdist}, with and without fractional weights, threads = GOMAXPROCS = 1,2,3,4 must give the same bits. " +
+			"fault part: the same exploration with a DistModel that fails at each Distance call / each Sequence call in turn, and with one that fails at every Distance call from the k-th on (k=0,1; cpus 2,3; preemption bound 2/3); relational part: all alignments of shape 2x1,2x2,3x1,2x3,3x2 (+2x4,3x3 thorough; 3x3 over {A,C,T,-} for pdist and rawdist) over {A,C,G,T,-} x 7 models x rm-gaps x gap-count modes under every column permutation, replication (concat, weights) k=2,3, unit weights, reverse complement, every row permutation, cpus 1,2,3; the shapes of <= 6 cells also with ONE model value serving all calls of a case (as build distboot does) and, for 2x1, 2x2, 3x1, 3x2, in range mode with both ranges = all rows; thread part (GOMAXPROCS following the thread count, as --threads does): all 2x4 (thorough 2x5) alignments over {A,C,B,V} x {f81,tn93,pdist} (thorough also f84, jc), with and without fractional weights, threads = GOMAXPROCS = 1,2,3,4 must give the same bits. " +
 			"distinct_nontrivial counts distinct (case, schedule) executions of the schedule/fault parts plus relational cases whose matrix has a non-zero entry. states/transitions are nodes/edges of the schedule choice trees.",
 		Assumptions: []string{
 			"sequential consistency (Go programs without data races are SC; races are what the vector-clock check reports)",
